@@ -243,7 +243,11 @@ def _explore_label_source(ts: Any, acc: Acc, AsyncBroker: Any, AsyncSharedBroker
             b, src, tasks = _build_ls(ts, [], AsyncBroker, AsyncSharedBroker, LabelScheduleSource, run_sync)
             ref = [_entries(names) for names in ts]
             ok = True
-            listing = run_sync(src.get_schedules())
+            try:
+                listing = run_sync(src.get_schedules())
+            except Exception as exc:
+                acc.violation("label-source-listing-raised", f"task set {ts}: get_schedules raised {type(exc).__name__}: {exc}", {"label_source": [list(map(list, ts)), seq]})
+                continue
             for step in seq + [None]:
                 # compare listing with the reference model
                 got = [(s.task_name, s.cron, s.time, s.args, s.kwargs, s.cron_offset,
@@ -260,9 +264,18 @@ def _explore_label_source(ts: Any, acc: Acc, AsyncBroker: Any, AsyncSharedBroker
                     break
                 fired = listing[step]
                 before = [copy.deepcopy(t.labels.get("schedule", [])) for t in tasks]
-                r = src.post_send(fired)
-                if hasattr(r, "__await__"):
-                    run_sync(r)
+                try:
+                    r = src.post_send(fired)
+                    if hasattr(r, "__await__"):
+                        run_sync(r)
+                except Exception as exc:
+                    acc.violation(
+                        "label-source-post-send-raised",
+                        f"task set {ts}: post_send for {fired.task_name} time={fired.time} cron={fired.cron} raised {type(exc).__name__}: {exc}",
+                        {"label_source": [list(map(list, ts)), seq]},
+                    )
+                    ok = False
+                    break
                 acc.transitions += 1
                 acc.count("firings")
                 # reference: remove first entry of that task with that time, nothing else
@@ -283,7 +296,12 @@ def _explore_label_source(ts: Any, acc: Acc, AsyncBroker: Any, AsyncSharedBroker
                     )
                     ok = False
                     break
-                listing = run_sync(src.get_schedules())
+                try:
+                    listing = run_sync(src.get_schedules())
+                except Exception as exc:
+                    acc.violation("label-source-listing-raised", f"task set {ts}: get_schedules raised {type(exc).__name__}: {exc}", {"label_source": [list(map(list, ts)), seq]})
+                    ok = False
+                    break
             acc.paths += 1
             if not ok:
                 continue
